@@ -215,6 +215,21 @@ func (r *RootExpr) Validate() error {
 		if view, ok := rt.explicitViewDefined(); !ok {
 			verr.Add(rt, "type %q does not define view %q", rt.TypeName, view)
 		}
+		for _, v := range rt.Views {
+			vobj := AsObject(v.Type)
+			if vobj == nil {
+				continue
+			}
+			for _, nat := range *vobj {
+				view, ok := nat.Attribute.Meta.Last(ViewMetaKey)
+				if !ok {
+					continue
+				}
+				if att := rt.Find(nat.Name); att != nil && att.Type != nil && !definesView(att.Type, view) {
+					verr.Add(rt, "view %q: type of attribute %q does not define view %q", v.Name, nat.Name, view)
+				}
+			}
+		}
 	}
 	return &verr
 }
